@@ -3,7 +3,7 @@
 import json, os, shutil, sys
 pid, caught = sys.argv[1], sys.argv[2]
 missed = "--missed" in sys.argv
-src = "/root/work/mut2/%s" % pid
+src = os.environ.get("MUT_SRC", "/root/work/mut2") + "/%s" % pid
 n = 2
 while os.path.exists("/verif/seeded/%s-%d" % (pid, n)):
     n += 1
@@ -12,7 +12,7 @@ os.makedirs(dst)
 for f in ("patch.diff", "demo.py"):
     shutil.copy(os.path.join(src, f), dst)
 meta = json.load(open(os.path.join(src, "meta.json")))
-meta["written_by"] = "independent sub-agent (round 2) given only the property text and a scratch worktree (no access to /verif)"
+meta["written_by"] = "independent sub-agent (round " + os.environ.get("MUT_ROUND", "2") + ") given only the property text and a scratch worktree (no access to /verif)"
 meta["confirmed_by_hand"] = json.load(open(os.path.join(src, "confirm.json")))
 meta["what_was_run"] = ("tools/confirm_mutant.sh (fresh worktree: demo on unchanged tree, apply patch, full pytest, demo again); "
                         "tools/try_mutant.sh patch.diff %s (quick tier, seed 0)" % pid)
